@@ -73,7 +73,7 @@ def run(ck):
     r5(ck, F)
 
 
-def r1(ck, F):
+def r1(ck, F, rid="C04.R1"):
     spec = {
         "register": ("read", ["rebuild_callsite_interest", "push"]),
         "register_dispatch": ("write", ["on_register_dispatch", "push", "rebuild_interest"]),
@@ -81,7 +81,7 @@ def r1(ck, F):
     }
     for fn, (mode, ops) in spec.items():
         b = F.body(CS + fn)
-        if not ck.anchor("C04.R1", fn, b):
+        if not ck.anchor(rid, fn, b):
             continue
         locks = lock_calls(b)
         key = "%s: %s under dispatchers.%s()" % (fn, " then ".join(ops), mode)
@@ -111,9 +111,9 @@ def r1(ck, F):
             if not drops:
                 problems.append("the lock guard is never dropped on the normal path")
         if problems:
-            ck.bad("C04.R1", key, where(b.raw["sp"]), "; ".join(problems), fn=b.path)
+            ck.bad(rid, key, where(b.raw["sp"]), "; ".join(problems), fn=b.path)
         else:
-            ck.ok("C04.R1", key, fn=b.path)
+            ck.ok(rid, key, fn=b.path)
     # the static is the one registry
     for fn in spec:
         b = F.body(CS + fn)
@@ -123,7 +123,7 @@ def r1(ck, F):
             o = b.origin(t["argv"][0])
             txt = str(o)
             if "REGISTRY" in txt or "dispatchers" in txt:
-                ck.ok("C04.R1", "%s locks REGISTRY.dispatchers" % fn, nontrivial=False)
+                ck.ok(rid, "%s locks REGISTRY.dispatchers" % fn, nontrivial=False)
 
 
 def r2(ck, F):
